@@ -559,6 +559,10 @@ func runConn(g *modx.Rig, c c05Case, cs conn5, out *connOut) {
 			a := modx.NewAction()
 			a.Srv = cl.Srv
 			a.HijackReq, a.HijackRes = q.Hij == "req", q.Hij == "res"
+			// every third request of a decrypted tunnel that is not the last one: the
+			// request modifier calls Session.MarkInsecure() (fixed share, no PRNG draw);
+			// the requests after it are still tunnelled requests
+			a.MarkInsecure = cs.Inner == "tls" && q.Hij == "" && k%3 == 0 && k < len(cs.Reqs)-1
 			g.Rec.SetAction(q.X, a)
 			acts = append(acts, a)
 			if q.Up == "plainreply" {
@@ -809,12 +813,19 @@ func runCase(r *vh.Run, ca *modx.CA, c c05Case) {
 				when += "/reused-connection" // the CONNECT was not the first exchange of its connection
 			}
 			hostViolated := false
+			selfMarked := false // this exchange's own request modifier called MarkInsecure()
+			for _, cc := range cl {
+				if cc.Side == "req" && cc.MarkedInsecure {
+					selfMarked = true
+					r.Class("modifier-marks-insecure/" + lclass + "/" + when)
+				}
+			}
 			for _, cc := range cl {
 				if cs.Inner == "tls" {
 					if cc.Scheme != "https" {
 						r.Violation("C05:scheme:"+q.Form, fmt.Sprintf("a request decrypted from the tunnel was presented to the %s modifier with scheme %q", cc.Side, cc.Scheme), wit(nil))
 					}
-					if !cc.Secure {
+					if !cc.Secure && !(selfMarked && cc.Side == "res") {
 						r.Violation("C05:secure:"+lclass, "a request decrypted from the tunnel was presented on a session not marked secure", wit(nil))
 					}
 					if strings.HasPrefix(q.Form, "origin-nohost") && c.Listener != "tls" && !sameAuthority(cc.URLHost, ai) {
